@@ -314,7 +314,9 @@ class TTuple(T):
                        for i, it in enumerate(self.items)])
 
     def unwrap(self, v):
-        assert isinstance(v, VTuple) and len(v.items) == len(self.items), v
+        if not (isinstance(v, VTuple) and len(v.items) == len(self.items)):
+            from .exec import Unsupported
+            raise Unsupported('value %r does not fit the element type of this sequence' % (v,))
         return self.dt.constructor(0)(*[it.unwrap(x) for it, x in zip(self.items, v.items)])
 
     def fresh(self, name):
